@@ -114,6 +114,16 @@ def run (cfg : Cfg) : St → List Label → Option St
 
 def init : St := {}
 
+/-- `log` above records the end of every entry of the map, mutations included (a mutation's entry is
+removed like a subscription's). The subscription logger is told about subscriptions only: it sees
+every `S`, and the `U` of an entry whose `S` it has seen (a mutation has none). -/
+def keptBy (log : List Ev) : Ev → Bool
+  | .S _ _ => true
+  | .U id rid => log.contains (.S id rid)
+
+/-- the `SubscriptionLogger` calls of the code after the repair C17-4 -/
+def seen (log : List Ev) : List Ev := log.filter (keptBy log)
+
 /-- rerunners that are alive although nothing in `subscriptions` refers to them -/
 def orphans (s : St) : List Nat :=
   (List.range s.nextRid).filter fun rid => alive s rid && (findRid s.subs rid).isNone
